@@ -103,7 +103,7 @@ func init() {
 
 	Register(&Family{
 		Name:   "C02.safe",
-		Props:  []string{"C02", "C13"},
+		Props:  []string{"C02", "C08", "C13"},
 		Weight: 2,
 		Gen: func(g *Gen) *Scn {
 			sc := &Scn{Family: "C02.safe"}
@@ -125,6 +125,36 @@ func init() {
 			s := e.NewSrc(sc.Sources[0])
 			o := e.BuildChain(s.Obs(), sc.Stages, func(i int) ro.Observable[int] { return ro.Empty[int]() })
 			rec := e.NewRec("o")
+			// C08: these constructors serialise by blocking, they never drop: when a producer's Next returns
+			// (no terminal having been issued by anybody yet) its value has been handled by the observer
+			identity := true
+			for _, st := range sc.Stages {
+				switch st.Op {
+				case "Serialize", "Tap", "StartWith", "TapOnFinalize":
+				default:
+					identity = false
+				}
+			}
+			termInvoked := false
+			s.AfterCall = func(c *ProdCall) {
+				if c.Step.K != "N" {
+					return
+				}
+				if termInvoked || !identity || c.Panic != nil {
+					return
+				}
+				for _, ev := range rec.Events {
+					if ev.K == 'N' && ev.V == c.Step.V && ev.Exit > 0 {
+						return
+					}
+				}
+				e.Violate("C08", "next-returned-before-delivery", fmt.Sprintf("producer %d's Next(%d) returned at step %d but the observer has not handled that value (trace %s): dropped or handed to somebody else", c.Prod, c.Step.V, e.Step(), rec.Trace()))
+			}
+			s.BeforeCall = func(st Step) {
+				if st.K != "N" {
+					termInvoked = true
+				}
+			}
 			e.Go("subscriber", func() { o.Subscribe(rec.Obs()) })
 			e.SettleFor(100 * Unit)
 			checkNoOverlap(e, rec)
